@@ -17,12 +17,33 @@ def words(flat, w):
     return [flat[i:i + w] for i in range(0, len(flat), w)]
 
 
+# Private field names of the hasher structs are not part of any property: a field is found by the
+# role its TYPE gives it (unique per struct); the name is only a fallback.
+ROLES = {
+    "buffer": lambda ft, t: ft.startswith("block_buffer::BlockBuffer<"),
+    "compressor": lambda ft, t: "::Compressor" in ft.split("<")[0],
+    "t": lambda ft, t: ft in ("(u32, u32)", "(u64, u64)"),
+    "block_counter": lambda ft, t: ft == "u64",
+    "datalen": lambda ft, t: ft == "usize",
+    "state": lambda ft, t: ft.startswith("skein_hash::State<") or ft == "jh_x86_64::compressor::Compressor",
+    "x": lambda ft, t: t.startswith("skein_hash::State<") and ft != "(u64, u64)",
+}
+WORKSPACE = ("blake_hash::", "groestl_aesni::", "jh_x86_64::", "skein_hash::")
+
+
 def by_name(it, v, t, name):
     d = it.ty.get(t)
-    for i, fl in enumerate(d["variants"][0]["fields"]):
+    fields = d["variants"][0]["fields"]
+    role = ROLES.get(name)
+    if role is not None and t.startswith(WORKSPACE):
+        hits = [i for i, fl in enumerate(fields) if role(fl["ty"], t)]
+        if len(hits) == 1:
+            i = hits[0]
+            return it.as_agg(v, t).f[i], fields[i]["ty"], i
+    for i, fl in enumerate(fields):
         if fl["name"] == name:
             return it.as_agg(v, t).f[i], fl["ty"], i
-    raise Undecided("no field %s in %s" % (name, t))
+    raise Undecided("no field with the role of %s in %s" % (name, t))
 
 
 def with_field(it, v, t, name, new):
